@@ -6,7 +6,7 @@
    leaving the registry (EvRemove) and the storage each get_or_create returned (EvRet). *)
 From Coq Require Import List NArith Bool Arith Permutation.
 Import ListNotations.
-Require Import MV.Common.Interleave MV.C06.Model MV.C06.Spec MV.C06.Proofs MV.C06.Proofs2 MV.C06.Proofs4 MV.C06.Proofs5.
+Require Import MV.Common.Interleave MV.C06.Model MV.C06.Spec MV.C06.Exec MV.C06.Proofs MV.C06.Proofs2 MV.C06.Proofs4 MV.C06.Proofs5 MV.C06.Proofs6 MV.C06.Sim MV.C06.Refine MV.C06.ExecProofs MV.C06.WithC03.
 
 Theorem C06_invariant_every_schedule :
   forall (key : Type) (hash : key -> N) (keq : key -> key -> bool) (k : N), key_contract hash keq ->
@@ -47,14 +47,24 @@ Theorem C06_refines_one_map_per_kind :
     (forall kd i, (i < nshards k)%nat -> get_shard r kd i = s_band hash k (abs r kd) i).
 Proof. exact @refines_one_map_per_kind. Qed.
 
-(* full statement of the clause: "at quiescence Handles/Visit report exactly the live classes, each
-   once; Delete returns true iff the class was present and removes exactly it; Retain/Clear remove
-   exactly the non-matching/all entries".  Proved here: visit and handles run alone return exactly
-   [abs] (which holds each class at most once); delete; ONE retain/clear step = the single-map band
-   filter, and the band filters over all 2^k bands compose to [filter f].  Not proved as a
-   machine-level statement: that a retain/clear call run alone performs exactly that sequence of
-   band steps (it does by the definition of [step]/[plan]; checked on every generated history). *)
-Theorem C06_listing_exact_partial :
+(* the sharded machine is simulated by the single-map reference machine of Spec.v along EVERY
+   schedule: same step trace, same thread-local states (hence the same return values, listings and
+   program counters), and the final states related by [Rel]: every hash band of the single map is
+   the corresponding shard, same allocator, same construction log *)
+Theorem C06_refines_every_schedule :
+  forall (key : Type) (hash : key -> N) (keq : key -> key -> bool) (k : N), key_contract hash keq ->
+  forall (ps : list (list (@op key))) (sched : list nat),
+    exists sr, exec (sstep hash keq k) site (init_sreg, map init_local ps) sched
+               = ((sr, snd (fst (exec (step hash keq k) site (init_config k ps) sched))),
+                  snd (exec (step hash keq k) site (init_config k ps) sched))
+               /\ Rel hash keq k (fst (fst (exec (step hash keq k) site (init_config k ps) sched))) sr.
+Proof. exact @refines_every_schedule. Qed.
+
+(* at quiescence (the call runs alone): visit / handles return exactly [abs] (each class at most
+   once); delete returns true iff present and removes exactly that class; a retain call performs its
+   2^k band steps and leaves exactly the entries satisfying the predicate; a clear call performs its
+   3 * 2^k steps and leaves nothing *)
+Theorem C06_listing_exact :
   forall (key : Type) (hash : key -> N) (keq : key -> key -> bool) (k : N), key_contract hash keq ->
   forall r : @reg key, Inv hash keq k r ->
     (forall (l : @local key) kd rest, pcl l = Run 0 [] -> todo l = OVisit kd :: rest ->
@@ -68,10 +78,53 @@ Theorem C06_listing_exact_partial :
          /\ (forall kd', kd <> kd' -> abs r' kd' = abs r kd')
          /\ cnt keq (abs r' kd) key0 = 0%nat
          /\ (forall key1, keq key0 key1 = false -> cnt keq (abs r' kd) key1 = cnt keq (abs r kd) key1)) /\
-    (forall kd i f, (i < nshards k)%nat -> abs (filter_shard r kd i f) kd = s_filter_band hash k (abs r kd) i f) /\
-    (forall kd (f : @entry key -> bool),
-       fold_left (fun m j => s_filter_band hash k m j f) (seq 0 (nshards k)) (abs r kd) = filter f (abs r kd)).
-Proof. exact @listing_exact. Qed.
+    (forall (l : @local key) kd p rest, pcl l = Run 0 [] -> todo l = ORetain kd p :: rest ->
+       exists r', solo hash keq k (nshards k) r l = Some (r', finish l RUnit)
+         /\ abs r' kd = filter (fun e => p (fst e) (snd e)) (abs r kd)
+         /\ (forall kd', kd <> kd' -> abs r' kd' = abs r kd') /\ Inv hash keq k r') /\
+    (forall (l : @local key) rest, pcl l = Run 0 [] -> todo l = OClear :: rest ->
+       exists r', solo hash keq k (3 * nshards k) r l = Some (r', finish l RUnit)
+         /\ (forall kd, abs r' kd = []) /\ Inv hash keq k r').
+Proof. exact @listing_exact_full. Qed.
+
+(* the model's own run of every case (history or schedule, any k) passes the executable property:
+   the single-map replay of the observed lock order *)
+Theorem C06_spec_ok_on_model : forall c, consistent (okeys (case_keys c)) = true -> spec_ok c (run_case c) = true.
+Proof. exact spec_ok_on_model. Qed.
+
+(* what spec_ok accepts: equal keys were reported with equal hashes, and the observed trace, return
+   values (listings up to order), completion flag, construction sequence and final listings are those
+   of the single-map reference machine run on the observed order of lock acquisitions *)
+Theorem C06_spec_ok_sound : forall c o, spec_ok c o = true ->
+  consistent (okeys (snd (fst o))) = true /\
+  let x := fst (fst o) in
+  let tr := fst (fst (fst (fst x))) in
+  let s := run_spec c (map tid tr) in
+  fst (fst (fst (fst s))) = tr /\
+  Forall2 (Forall2 cres_equiv) (snd (fst (fst (fst s)))) (snd (fst (fst (fst x)))) /\
+  snd (fst (fst s)) = snd (fst (fst x)) /\
+  snd (fst s) = snd (fst x) /\
+  Forall2 (@Permutation (N * N)) (snd s) (snd x).
+Proof. exact spec_ok_sound. Qed.
+
+(* real keys (C03): a key is any construction path; hash = memoised get_hash for any byte-stream
+   hash H; equality = key_eq.  The contract holds, so every theorem above applies with no remaining
+   hypothesis beyond C03's own theorems. *)
+Theorem C06_key_contract_from_C03 : forall H, key_contract (real_hash H) (real_keq H).
+Proof. exact real_key_contract. Qed.
+
+Theorem C06_instantiated_with_C03 :
+  forall (H : list MV.C03.Model.bytes -> N) (k : N) (ps : list (list (@op real_key))) (sched : list nat),
+    let r := fst (fst (exec (step (real_hash H) (real_keq H) k) site (init_config k ps) sched)) in
+    InvAll (real_hash H) (real_keq H) k r /\
+    (forall kd key0, (cnt (real_keq H) (abs r kd) key0 <= 1)%nat) /\
+    (forall s, (scnt (all_entries r) s <= 1)%nat) /\
+    (forall kd key0, ncreate (real_keq H) (log r) kd key0
+                     = (nremove (real_keq H) (log r) kd key0 + cnt (real_keq H) (abs r kd) key0)%nat) /\
+    (forall newer kd k2 s2 mid k1 s1 older,
+       log r = newer ++ EvRet kd k2 s2 :: mid ++ EvRet kd k1 s1 :: older ->
+       real_keq H k1 k2 = true -> (forall ev, In ev mid -> is_remove (real_keq H) kd k1 ev = false) -> s1 = s2).
+Proof. exact instantiated_with_C03. Qed.
 
 (* non-vacuity: the contract is satisfiable, and a race of two creators of one key (both miss under
    the read lock) followed by delete and re-creation behaves as stated *)
